@@ -6,7 +6,7 @@
    [i]; [n] is the static array length, assumed <= 2^63 (the usize reading of a negative int64
    is >= 2^63).  The property as a whole is PARTIAL: see props/C19/NOTES.md. *)
 From Coq Require Import String ZArith List Bool Lia.
-From V.C19 Require Import Array GenIter ModelIter Proofs ProofsIter.
+From V.C19 Require Import Array GenIter ModelIter Proofs ProofsIter ProofsNested.
 Import ListNotations.
 Open Scope Z_scope.
 
@@ -222,6 +222,111 @@ Print Assumptions comprehension_over_array_keeps_order.
 Example comprehension_example :
   comprehension 3 [VInt 7; VInt 8; VInt 9] = Ok (VArr [Some (VInt 7); Some (VInt 8); Some (VInt 9)]).
 Proof. vm_compute. reflexivity. Qed.
+
+(** ---- nested subscripts `f(qs[i][j])` (arrays of arrays).  The emitted sequence evaluates each
+    index expression once and every borrow / return of the outer array reads that one register. *)
+
+(** taking the leaf out touches exactly cell (i, j): it becomes empty, its content is what the
+    callee gets, every other cell of every inner array is as before *)
+Theorem lend_nested_touches_exactly_cell_ij : forall n m cells inner i j v,
+  length cells = n -> Z.of_nat n <= two63 -> Z.of_nat m <= two63 ->
+  0 <= i < Z.of_nat n -> 0 <= j < Z.of_nat m -> length inner = m ->
+  nth_error cells (Z.to_nat i) = Some (Some (VArr inner)) ->
+  nth_error inner (Z.to_nat j) = Some (Some v) ->
+  exists cells', run_outs (seq_lend_nested_pre n m) outs_lend_nested_pre [VArr cells; VInt i; VInt j] = Ok [v; VArr cells']
+                 /\ only_cell_ij_changed (Z.to_nat i) (Z.to_nat j) None cells cells'.
+Proof. exact lend_nested_pre_spec_l. Qed.
+Print Assumptions lend_nested_touches_exactly_cell_ij.
+
+(** the write-back after the call puts the leaf into exactly cell (i, j) *)
+Theorem lend_nested_gives_back_to_cell_ij : forall n m cells inner i j w,
+  length cells = n -> Z.of_nat n <= two63 -> Z.of_nat m <= two63 ->
+  0 <= i < Z.of_nat n -> 0 <= j < Z.of_nat m -> length inner = m ->
+  nth_error cells (Z.to_nat i) = Some (Some (VArr inner)) ->
+  nth_error inner (Z.to_nat j) = Some None ->
+  exists cells', run_outs (seq_lend_nested_post n m) outs_lend_nested_post [VArr cells; VInt i; VInt j; w] = Ok [VArr cells']
+                 /\ only_cell_ij_changed (Z.to_nat i) (Z.to_nat j) (Some w) cells cells'.
+Proof. exact lend_nested_post_spec_l. Qed.
+Print Assumptions lend_nested_gives_back_to_cell_ij.
+
+(** the whole `g(qs[i][j])`: every element is back in its own cell *)
+Theorem lend_nested_restores_array : forall n m cells inner i j,
+  length cells = n -> Z.of_nat n <= two63 -> Z.of_nat m <= two63 ->
+  forall g v, 0 <= i < Z.of_nat n -> 0 <= j < Z.of_nat m -> length inner = m ->
+  nth_error cells (Z.to_nat i) = Some (Some (VArr inner)) ->
+  nth_error inner (Z.to_nat j) = Some (Some v) ->
+  run_outs (seq_lend_nested n m (OGate g)) outs_lend_nested [VArr cells; VInt i; VInt j] = Ok [VArr cells].
+Proof. exact lend_nested_restores_l. Qed.
+Print Assumptions lend_nested_restores_array.
+
+Theorem lend_nested_outer_index_invalid_panics : forall n m cells i j,
+  length cells = n -> Z.of_nat n <= two63 ->
+  forall f, is_int64 i -> (i < 0 \/ Z.of_nat n <= i) ->
+  run_outs (seq_lend_nested n m f) outs_lend_nested [VArr cells; VInt i; VInt j] = Panic msg_op_oob.
+Proof. exact lend_nested_outer_out_l. Qed.
+Print Assumptions lend_nested_outer_index_invalid_panics.
+
+Theorem lend_nested_inner_index_invalid_panics : forall n m cells inner i j,
+  length cells = n -> Z.of_nat n <= two63 -> Z.of_nat m <= two63 ->
+  forall f, 0 <= i < Z.of_nat n -> length inner = m ->
+  nth_error cells (Z.to_nat i) = Some (Some (VArr inner)) ->
+  is_int64 j -> (j < 0 \/ Z.of_nat m <= j) ->
+  run_outs (seq_lend_nested n m f) outs_lend_nested [VArr cells; VInt i; VInt j] = Panic msg_op_oob.
+Proof. exact lend_nested_inner_out_l. Qed.
+Print Assumptions lend_nested_inner_index_invalid_panics.
+
+(** `g(qs[bump(ctr)][c])` with an EFFECTFUL index expression: the oracle is consulted once (the
+    counter goes from k to k+1) and the element it named is the one lent and given back *)
+Theorem lend_nested_effectful_index_evaluated_once : forall n m cells inner i j,
+  length cells = n -> Z.of_nat n <= two63 -> Z.of_nat m <= two63 ->
+  forall g c k v, i = k -> j = c -> Z.of_nat n < two63 ->
+  0 <= i < Z.of_nat n -> 0 <= j < Z.of_nat m -> length inner = m ->
+  nth_error cells (Z.to_nat i) = Some (Some (VArr inner)) ->
+  nth_error inner (Z.to_nat j) = Some (Some v) ->
+  run_outs (seq_lend_nested_oracle n m (OGate g) c) outs_lend_nested_oracle [VArr cells; VArr [Some (VInt k)]]
+  = Ok [VArr cells; VArr [Some (VInt (k + 1))]].
+Proof. exact lend_nested_oracle_l. Qed.
+Print Assumptions lend_nested_effectful_index_evaluated_once.
+
+Theorem read_nested_touches_exactly_cell_ij : forall n m cells inner i j,
+  length cells = n -> Z.of_nat n <= two63 -> Z.of_nat m <= two63 ->
+  forall v, 0 <= i < Z.of_nat n -> 0 <= j < Z.of_nat m -> length inner = m ->
+  nth_error cells (Z.to_nat i) = Some (Some (VArr inner)) ->
+  nth_error inner (Z.to_nat j) = Some (Some v) ->
+  run_outs (seq_get_nested n m) outs_get_nested [VArr cells; VInt i; VInt j] = Ok [v; VArr cells].
+Proof. exact read_nested_l. Qed.
+Print Assumptions read_nested_touches_exactly_cell_ij.
+
+Theorem read_nested_inner_index_invalid_panics : forall n m cells inner i j,
+  length cells = n -> Z.of_nat n <= two63 -> Z.of_nat m <= two63 ->
+  0 <= i < Z.of_nat n -> length inner = m ->
+  nth_error cells (Z.to_nat i) = Some (Some (VArr inner)) ->
+  is_int64 j -> (j < 0 \/ Z.of_nat m <= j) ->
+  run_outs (seq_get_nested n m) outs_get_nested [VArr cells; VInt i; VInt j] = Panic msg_index_oob.
+Proof. exact read_nested_inner_out_l. Qed.
+Print Assumptions read_nested_inner_index_invalid_panics.
+
+Theorem write_nested_touches_exactly_cell_ij : forall n m cells inner i j v old,
+  length cells = n -> Z.of_nat n <= two63 -> Z.of_nat m <= two63 ->
+  0 <= i < Z.of_nat n -> 0 <= j < Z.of_nat m -> length inner = m ->
+  nth_error cells (Z.to_nat i) = Some (Some (VArr inner)) ->
+  nth_error inner (Z.to_nat j) = Some (Some old) ->
+  exists cells', run_outs (seq_set_nested n m) outs_set_nested [VArr cells; VInt i; VInt j; v] = Ok [VArr cells']
+                 /\ only_cell_ij_changed (Z.to_nat i) (Z.to_nat j) (Some v) cells cells'.
+Proof. exact write_nested_spec_l. Qed.
+Print Assumptions write_nested_touches_exactly_cell_ij.
+
+Example lend_nested_example :
+  let row k := VArr [Some (VRes (10 * k)); Some (VRes (10 * k + 1))] in
+  let qs := [Some (row 0); Some (row 1); Some (row 2)] in
+  run_outs (seq_lend_nested 3 2 (OGate "H")) outs_lend_nested [VArr qs; VInt 2; VInt 1] = Ok [VArr qs]
+  /\ run_outs (seq_lend_nested_oracle 3 2 (OGate "H") 1) outs_lend_nested_oracle [VArr qs; VArr [Some (VInt 1)]]
+     = Ok [VArr qs; VArr [Some (VInt 2)]]
+  /\ run_outs (seq_lend2_nested_oracle 3 2 "CX" 0 1) outs_lend2_nested_oracle [VArr qs; VArr [Some (VInt 0)]]
+     = Ok [VArr qs; VArr [Some (VInt 2)]]
+  /\ run_outs (seq_lend_nested 3 2 (OGate "H")) outs_lend_nested [VArr qs; VInt 3; VInt 1] = Panic msg_op_oob
+  /\ run_outs (seq_lend_nested 3 2 (OGate "H")) outs_lend_nested [VArr qs; VInt 0; VInt (-1)] = Panic msg_op_oob.
+Proof. vm_compute. auto 10. Qed.
 
 (** PARTIAL.  Not proved here: (1) that the HUGR ops behave as Array.v part 1 says (trusted
     spec); (2) that the compiler emits the sequences of Array.v part 3 for ALL programs (tied by
